@@ -46,8 +46,9 @@ inductive PTy where
   /-- types encoded as an unconstrained length + octets (X.691 §30.6 UTF8String, §24/§25 OID, RELATIVE-OID) -/
   | unkstr
   /-- `root`/`rattrs`: the components of the extension root with OPTIONAL/DEFAULT attributes;
-      `adds`: the extension additions (each an open type on the wire, X.691 §19.7–19.9) -/
-  | seq (root : List PTy) (rattrs : List Attr) (extensible : Bool) (adds : List PTy)
+      `adds`/`aattrs`: the extension additions (each an open type on the wire, X.691 §19.7–19.9) and their
+      attributes (a DEFAULT value matters: CANONICAL-PER encodes a component holding it as absent) -/
+  | seq (root : List PTy) (rattrs : List Attr) (extensible : Bool) (adds : List PTy) (aattrs : List Attr)
   /-- `order`: the declaration indexes of the root alternatives listed in canonical (tag) order, so the
       CHOICE index (X.691 §23.2) of declared alternative `i` is the position of `i` in `order` -/
   | choice (root : List PTy) (order : List Nat) (extensible : Bool) (adds : List PTy)
@@ -205,7 +206,8 @@ partial def resolvePTy (ctx : ModCtx) (seen : List String) (e : Sexp) : Option P
     | none => none
     | some cs =>
       let root := cs.take n
-      some (.seq (root.map (·.1)) (root.map fun c => { c.2 with ext := false }) (ext != .atom "-") ((cs.drop n).map (·.1)))
+      some (.seq (root.map (·.1)) (root.map fun c => { c.2 with ext := false }) (ext != .atom "-") ((cs.drop n).map (·.1))
+              ((cs.drop n).map (·.2)))
   | .list [.atom "CHOICE", _, ext, .list alts] =>
     let n := extIndex ext alts.length
     match resolvePComps ctx seen alts with
